@@ -8,7 +8,8 @@
    "vector" record per case with the exact expected word. *)
 EXTENDS InsnFields, TLC, Json
 
-CONSTANT OrOnly   \* TRUE: check the properties of WriteOr instead (must fail: anti-vacuity)
+CONSTANT Variant  \* "spec": the specified Write.  "or" / "movnz-clobber" / "call36-carry": the deliberately
+                  \* broken writers of InsnFields; TLC must reject each (anti-vacuity)
 
 VARIABLES kind, ei, W, V, neg
 vars == <<kind, ei, W, V, neg>>
@@ -42,7 +43,10 @@ Next == /\ kind = "pre"
         /\ UNCHANGED <<ei, V, neg>>
 Spec == Init /\ [][Next]_vars
 
-Wr(e, w, v, n) == IF OrOnly THEN WriteOr(e, w, v, n) ELSE Write(e, w, v, n)
+Wr(e, w, v, n) == CASE Variant = "spec" -> Write(e, w, v, n)
+                    [] Variant = "or" -> WriteOr(e, w, v, n)
+                    [] Variant = "movnz-clobber" -> WriteMovnzClobber(e, w, v, n)
+                    [] Variant = "call36-carry" -> WriteCall36Carry(e, w, v, n)
 
 TableInv == TableOK(E)
 LocalInv == kind = "vector" => Local(E, Wr, W, V, neg)
